@@ -14,10 +14,10 @@ CLAIMED = {
 }
 _ALLOC_NOTE = "trusted: block-index/alignment/containment abstraction in harness/alloc.go (math/big), TLC; pools <= 1000 blocks; concurrency is sampled (16 goroutines) plus deterministic exclusion probes"
 for _i, _t in {
-  "C04": "Disjointness is an invariant of Alloc.tla and of the fine-grained AllocConc.tla (every interleaving of lock/test/set/unlock, TLC exhaustive); every (out-state x letter-sequence) of the 1..4-block models is replayed on both real allocators and validated by TLC, plus word-boundary random walks, the exclusion probe derived from the lock-free model's counterexample and a 16-goroutine stress whose in-lock observation points give the linearization order.",
-  "C05": "Capacity/in-pool/size are action properties of Alloc.tla (TLC exhaustive, N<=4); every out-state x letter-sequence replayed on both allocators over a table of pool geometries (incl. single block, ranges ending at 255.255.255.255, IPv6 pools on both sides of the 64-bit boundary) and validated by TLC; exhaustion reached in every pool.",
-  "C06": "FreeExact is an action property of Alloc.tla (TLC exhaustive); all sequences include Free of every block, sub-prefix and prefixes below/above the pool, replayed on both allocators and validated by TLC together with the consequences for later Allocate calls.",
-  "C07": "HintHonoured is an action property of Alloc.tla (TLC exhaustive); every block of the small pools and the word-boundary blocks of large pools are hinted in every out-state, in 4/16-byte and inside-the-block forms, validated by TLC.",
+  "C04": "Disjointness is an invariant of Alloc.tla and of the fine-grained AllocConc.tla (every interleaving of lock/test/set/unlock, TLC exhaustive); every (out-state x letter-sequence) of the 1..4-block models is replayed on both real allocators and validated by TLC, plus word-boundary random walks, the exclusion probe derived from the lock-free model's counterexample and a 16-goroutine stress whose in-lock observation points give the linearization order. Big pools (8192 .. 2^34 blocks, block numbers relabelled for TLC) driven densely (mode dense). Thorough: TLAPS proof of Alloc's inductive invariant for every pool size (design only, advisory).",
+  "C05": "Capacity/in-pool/size are action properties of Alloc.tla (TLC exhaustive, N<=4); every out-state x letter-sequence replayed on both allocators over a table of pool geometries (incl. single block, ranges ending at 255.255.255.255, IPv6 pools on both sides of the 64-bit boundary) and validated by TLC; exhaustion reached in every pool. Big pools (8192 .. 2^34 blocks, block numbers relabelled for TLC) driven densely (mode dense). Thorough: TLAPS proof of Alloc's inductive invariant for every pool size (design only, advisory).",
+  "C06": "FreeExact is an action property of Alloc.tla (TLC exhaustive); all sequences include Free of every block, sub-prefix and prefixes below/above the pool, replayed on both allocators and validated by TLC together with the consequences for later Allocate calls. Big pools (8192 .. 2^34 blocks, block numbers relabelled for TLC) driven densely (mode dense).",
+  "C07": "HintHonoured is an action property of Alloc.tla (TLC exhaustive); every block of the small pools and the word-boundary blocks of large pools are hinted in every out-state, in 4/16-byte and inside-the-block forms, validated by TLC. Big pools (8192 .. 2^34 blocks, block numbers relabelled for TLC) driven densely (mode dense).",
 }.items():
     CLAIMED[_i] = ("Alloc", "TLA+ model of the allocators (atomic + fine-grained concurrent) checked by TLC; all bounded operation sequences executed on the real allocators and validated by TLC trace checking under the property's lens", _t, _ALLOC_NOTE, "DESIGN.md section 3 C04-C07")
 _RANGE_NOTE = "trusted: harness/range.go (request construction via the codec, yiaddr->index, option 51 decoding, row attribution), TLC; whole-second lease times; database copied at quiescent points; no clock injection (2.1 s real sleeps stand for the model's Tick)"
@@ -60,19 +60,21 @@ CLAIMED["C16"] = ("Server", "same model: BufferSafe, LockDiscipline, the lease i
 NOT_YET = {}
 # what later rounds of strengthening added to a property's check (appended to the level text)
 EXTRA = {
- "C01": " Also on the REAL receive loops: server.Start on loopback UDP sockets, empty / 1-byte / truncated / junk / 60000-byte datagrams each followed by a request that must be answered (Lifecycle.tla: Datagram, ServesWhileOpen; LifecycleTrace under lens C01); clients that remember what they were told come back (conversations); the full chains also run as long-lived processes with liveness probes the chain cannot but answer.",
- "C13": " Start-up order on the real server.Start: a slow (and a slow, failing) plugin setup under a stream of SOLICITs over a real socket - no answer from anything but the configured chain (Lifecycle.tla: Load before Open, NeverServesBare, FailedLoadNeverListened; LifecycleTrace under lens C13); every process first handles 300 requests whose chain ends early.",
- "C02": " Plus histories with one window of a foreign write transaction on the lease database (transient storage fault), and whole chains (Conv.tla / ConvTrace.tla under lens C02: dynamic clients behind server_id, file, lease_time and option plugins, incl. conversations TLC generated from ConvGen).",
- "C03": " Plus histories with one window of a foreign write transaction on the lease database: what is handed out after the window must be restored (RangeTrace: fault, nobind, noexp).",
- "C10": " Requests carry client identifier options naming other hardware addresses; whole chains (Conv.tla / ConvTrace.tla under lens C10: a listed client gets its address and the chain ends there).",
- "C14": " The tables run several times over in one process; whole chains (ConvTrace under lens C14).",
- "C17": " Set-ups in both protocol sections of one process (table-dual), shuffled request lists; whole chains (ConvTrace under lens C17: options of exactly the plugins that ran, default lease time only when none is set).",
- "C08": " Long-running instances (a holder asks again after a neighbour renewed g times, g swept across 256 and, thorough, 65536; 300 clients on one pool), sibling client identifiers on one hardware address, hints with length bytes > 128 and shorter than the pool's.",
- "C09": " Long-running instances (a holder asks again after a neighbour renewed g times, g swept across 256 and, thorough, 65536).",
- "C12": " Every process first handles 300 requests whose chain ends early, then requests that must be answered; Interface-IDs of 0..6 bytes.",
- "C15": " The interface a link-level frame is handed to and its source address are compared; an extra arrival interface with index ifB+256 is created for the run when the sandbox allows it.",
- "C18": " Ports with leading zeros, Go-literal spellings and values beyond 65535.",
- "C19": " Valid range configurations run into exhaustion; lease databases with unreadable rows / the older schema / not a database.",
+ "C16": " Refused datagrams among the concurrent requests (what the server does with their buffers).",
+ "C11": " Long options 82 / 61 with option 57; link-level replies on a real interface: the FRAME's payload carries the request's fields.",
+ "C01": " Also on the REAL receive loops: server.Start on loopback UDP sockets, empty / 1-byte / truncated / junk / 60000-byte datagrams each followed by a request that must be answered (Lifecycle.tla: Datagram, ServesWhileOpen; LifecycleTrace under lens C01); clients that remember what they were told come back (conversations); the full chains also run as long-lived processes with liveness probes the chain cannot but answer. Storage-fault histories of the range plugin under a 20 s per-request watchdog (RangeTrace under lens C01: no request waits for ever).",
+ "C13": " Start-up order on the real server.Start: a slow (and a slow, failing) plugin setup under a stream of SOLICITs over a real socket - no answer from anything but the configured chain (Lifecycle.tla: Load before Open, NeverServesBare, FailedLoadNeverListened; LifecycleTrace under lens C13); every process first handles 300 requests whose chain ends early. A sixth handler behaviour (nil without stop); the chains again with the server's log level at debug.",
+ "C02": " Plus histories with one window of a foreign write transaction on the lease database (transient storage fault), and whole chains (Conv.tla / ConvTrace.tla under lens C02: dynamic clients behind server_id, file, lease_time and option plugins, incl. conversations TLC generated from ConvGen). The configured lease time changes between restarts; requests carry option 51 / 57 or meet a response that already has a lease time. Thorough: TLAPS proof of RangeLease's inductive invariant for every number of clients / addresses / restarts (design only, advisory).",
+ "C03": " Plus histories with one window of a foreign write transaction on the lease database: what is handed out after the window must be restored (RangeTrace: fault, nobind, noexp). The promise is what the reply carried. Thorough: TLAPS proof (RangeLeaseProof.tla; design only, advisory).",
+ "C10": " Requests carry client identifier options naming other hardware addresses; whole chains (Conv.tla / ConvTrace.tla under lens C10: a listed client gets its address and the chain ends there). The configured name may be a symbolic link: in-place updates through it, then an update published by re-pointing the link.",
+ "C14": " The tables run several times over in one process; whole chains (ConvTrace under lens C14). Two Server Identifier options in one message; server_id listed twice.",
+ "C17": " Set-ups in both protocol sections of one process (table-dual), shuffled request lists; whole chains (ConvTrace under lens C17: options of exactly the plugins that ran, default lease time only when none is set). Search lists longer than one option instance.",
+ "C08": " Long-running instances (a holder asks again after a neighbour renewed g times, g swept across 256 and, thorough, 65536; 300 clients on one pool), sibling client identifiers on one hardware address, hints with length bytes > 128 and shorter than the pool's. One IAID twice in a message, 33 / 40 / 200 IA_PDs in a message, a third configuration argument.",
+ "C09": " Long-running instances (a holder asks again after a neighbour renewed g times, g swept across 256 and, thorough, 65536). One IAID twice in a message.",
+ "C12": " Every process first handles 300 requests whose chain ends early, then requests that must be answered; Interface-IDs of 0..6 bytes. A second Client Identifier; RFC 4994 echo-request options in relay layers.",
+ "C15": " The interface a link-level frame is handed to and its source address are compared; an extra arrival interface with index ifB+256 is created for the run when the sandbox allows it. Listeners made by the real server.Start on this host's own addresses: replies pinned to the ARRIVAL interface (one request injected through a tun device of the run).",
+ "C18": " Ports with leading zeros, Go-literal spellings and values beyond 65535. Multicast groups with flag bits; YAML floats / bools as plugin arguments.",
+ "C19": " Valid range configurations run into exhaustion; lease databases with unreadable rows / the older schema / not a database. The widest ranges (the whole IPv4 space).",
 }
 
 def main():
